@@ -493,3 +493,32 @@ def m_abs(it, args, callee, depth):
 ALG_MODELS["f32>::abs"] = m_abs
 for _k in ("$float::fallback::abs", "$::fabsf", "$float::mm::abs", "$float::libm::abs", "$float::f32::abs"):
     ALG_MODELS[_k] = m_abs
+
+
+def _opaque(name):
+    def f(it, args, callee, depth):
+        vals = [A.deref_all(it, a) for a in args]
+        if all(isinstance(v, tuple) and v[0] == "f" for v in vals):
+            try:
+                x = [v[1] for v in vals]
+                if name == "fclamp":
+                    return ("f", min(max(x[0], x[1]), x[2]))
+                if name == "fmin":
+                    return ("f", min(x))
+                if name == "fmax":
+                    return ("f", max(x))
+            except Exception:
+                pass
+        return ("symop", name, vals[0], tuple(vals[1:]) if len(vals) > 2 else (vals[1] if len(vals) > 1 else None))
+    return f
+
+
+def m_mul_add(it, args, callee, depth):
+    a, b, c = [A.deref_all(it, x) for x in args[:3]]
+    return it.binop("Add", it.binop("Mul", a, b, "f32"), c, "f32")
+
+
+ALG_MODELS.setdefault("$f32>::clamp", _opaque("fclamp"))
+ALG_MODELS.setdefault("$f32>::min", _opaque("fmin"))
+ALG_MODELS.setdefault("$f32>::max", _opaque("fmax"))
+ALG_MODELS.setdefault("$f32>::mul_add", m_mul_add)
